@@ -477,3 +477,46 @@ Theorem c16_model_variant_before_fix_D11_alloc_failure_breaks_first_free :
   inv_table t /\ exists t', alloc_param_gen false t (KScalar (1, 1)%Z) 1 = AFail t' /\ ~ inv_table t'.
 Proof. exact alloc_fail_variant_breaks_first_free_l. Qed.
 Print Assumptions c16_model_variant_before_fix_D11_alloc_failure_breaks_first_free.
+
+(* ------------------------------------------------------------------ session 5: the parameter table of a vnacal_new_t *)
+(* Duplicate-freedom of vn_parameter_hash (the model's list vn_params) is now part of the PROVED
+   invariant: InvP s = Inv s /\ (not freed -> every live vnacal_new_t has NoDup vn_params).  It holds in
+   every reachable state (all op lists, unbounded) and no modelled assertion fails on the way; the
+   argument uses the acyclicity of the [other] links (a correlated parameter cannot be registered by the
+   recursion over its own correlate).  Lemmas: CalTab/CalTabParams.v. *)
+Require Import LV.CalTab.CalTabParams.
+
+Theorem c16_invp_reachable : forall ops,
+  InvP (run_state ops) /\ forall x, In x (snd (run st_initial ops)) -> o_ret x <> RFault.
+Proof. exact (fun ops => run_invp ops st_initial invp_initial). Qed.
+Print Assumptions c16_invp_reachable.
+
+Theorem c16_invp_step : forall s o, InvP s -> InvP (fst (step s o)).
+Proof. exact step_invp. Qed.
+Print Assumptions c16_invp_step.
+
+(* _vnacal_new_get_parameter / the loop of _vnacal_new_add_common keep a duplicate-free table duplicate
+   free, from ANY table whose [other] links are acyclic (not only reachable ones) *)
+Theorem c16_get_parameters_keep_nodup : forall rank hs t v t1 v1 ok,
+  acyc_by rank t -> vn_get_params t v hs = (t1, v1, ok) -> NoDup (vn_params v) -> NoDup (vn_params v1).
+Proof. exact vn_get_params_nodup. Qed.
+Print Assumptions c16_get_parameters_keep_nodup.
+
+(* consequence: one vnacal_new_t contributes at most ONE reference to the hold count of a parameter *)
+Theorem c16_held_once : forall s id v h, params_nodup s -> st_freed s = false -> get_new s id = Some v ->
+  cnt (vn_params v) h <= 1.
+Proof. exact held_once. Qed.
+Print Assumptions c16_held_once.
+
+(* the run-time test of the driver (inv_b: nodup_b) decides exactly NoDup *)
+Theorem c16_nodup_b_correct : forall l, nodup_b l = true <-> NoDup l.
+Proof. exact nodup_b_NoDup. Qed.
+Print Assumptions c16_nodup_b_correct.
+
+(* non-trivial instance: a standard naming the correlated handle 5 twice and the unknown 4 once registers
+   each of them once (vn_params = [0; 4; 5]) *)
+Example c16_params_nodup_satisfiable :
+  let s := run_state nodup_script in
+  st_freed s = false /\
+  exists v, get_new s 0 = Some v /\ vn_params v = [0; 4; 5] /\ NoDup (vn_params v) /\ length (vn_meas v) = 1.
+Proof. exact nodup_example. Qed.
